@@ -210,7 +210,11 @@ def run(ctx):
         fam["corpus"] = corpus
         base_line = TC.case([b"t", TC.ARC], b"\0")
         base = TC.normalise_c(base_line, common.run_lines_parallel([drv], [base_line])[0])
-        base_out = {k: v for k, v in TC.outside_of(base.split("|", 1)[1]).items() if k != b"arc/a.lzh"}
+        def outside(dump):
+            """everything that is not below S/root -- S itself (the parent of the extraction directory) included"""
+            t = T.parse_dump(dump)
+            return {k: v for k, v in t.items() if not (k == b"root" or k.startswith(b"root/")) and k != b"arc/a.lzh"}
+        base_out = outside(base.split("|", 1)[1])
         n_ro = n_conf = 0
         order_pool = []
         for name, lines in fam.items():
@@ -237,7 +241,7 @@ def run(ctx):
                                      "sig": "readonly:" + (TC.case_argv(l) or [b"?"])[0][:1].decode("latin-1")})
                 elif conf:
                     n_conf += 1
-                    now_out = TC.outside_of(c.split("|", 1)[1])
+                    now_out = outside(c.split("|", 1)[1])
                     if now_out != base_out:
                         d = sorted(k for k in set(now_out) | set(base_out) if now_out.get(k) != base_out.get(k))
                         need_trace.append((l, d))
